@@ -61,8 +61,12 @@ impl FitToType for f32 {
         let has_fraction = diff.abs() > 0.0001;
         if has_fraction {
             Variant::VSingle(self)
-        } else {
+        } else if self.round().abs() < 9.0e18_f32 {
             (self.round() as i64).fit_to_type()
+        } else {
+            // a whole number beyond the 64-bit integers stays what it is
+            // (`as i64` would saturate at about 9.22E+18)
+            Variant::VDouble(self.round() as f64)
         }
     }
 }
@@ -73,8 +77,12 @@ impl FitToType for f64 {
         let has_fraction = diff.abs() > 0.0001;
         if has_fraction {
             Variant::VDouble(self)
-        } else {
+        } else if self.round().abs() < 9.0e18_f64 {
             (self.round() as i64).fit_to_type()
+        } else {
+            // a whole number beyond the 64-bit integers stays what it is
+            // (`as i64` would saturate at about 9.22E+18)
+            Variant::VDouble(self.round())
         }
     }
 }
